@@ -44,6 +44,14 @@ TARGETS = [
     ("extensions/vec_ext.rs", "VecUpdateAt", "Vec", ["update_at"]),
     ("extensions/vec_ext.rs", "VecReverse", "Vec", ["reverse_ext", "reverse_if"]),
     ("extensions/vec_ext.rs", "VecSwap", "Vec", ["swap_ext"]),
+    # phase 2
+    ("extensions/iter_ext.rs", "IterSorted", "Iter", ["sorted"]),
+    ("validators/unique.rs", "ValidateUnique", "Vec", ["is_unique"]),
+    ("core/operations/axis.rs", "ArrayAxis", "Array", ["moveaxis", "rollaxis", "swapaxes", "expand_dims", "squeeze"]),
+]
+# crate functions OUTSIDE the translated set: a caller takes them as a parameter of the generated definition (signature only is read)
+EXTERNALS = [
+    ("core/operations/axis.rs", "ArrayAxis", "Array", "transpose"),
 ]
 # files whose impls are visible to method resolution (callees are translated on demand)
 FILES = sorted({t[0] for t in TARGETS})
@@ -223,24 +231,40 @@ class Parser:
         return out
 
     def skip_where(self):
+        """-> [(type name, bounds)] of the `where` clause"""
+        out = []
         if self.accept("where"):
             while not self.at("{") and not self.at(";"):
-                self.parse_type(); self.expect(":"); self.parse_bounds()
+                t = self.parse_type(); self.expect(":"); b = self.parse_bounds()
+                if t[0] == "path" and len(t[1]) == 1 and not t[2]: out.append((t[1][0], b))
                 if not self.accept(","): break
+        return out
 
     # -- items
     def parse_file(self):
         """-> list of impls: dict(generics, trait, selfty, fns: {name: fndict})"""
         impls = []
+        self.traits = {}
         while self.peek().k != "eof":
             self.skip_attrs()
             if self.at("impl"):
                 impls.append(self.parse_impl())
+            elif self.at("trait") and self.peek(1).k == "id":
+                self.parse_trait()
             elif self.at("{"): self.skip_balanced("{", "}")
             elif self.at("("): self.skip_balanced("(", ")")
             elif self.at("["): self.skip_balanced("[", "]")
             else: self.next()
         return impls
+
+    def parse_trait(self):
+        """remember the provided (default-bodied) methods of a trait; an impl without its own version inherits them"""
+        self.expect("trait"); name = self.ident()
+        gen = self.parse_generics()
+        if self.accept(":"): self.parse_bounds()
+        self.skip_where()
+        fns = self.parse_impl_items(defaults_only=True)
+        self.traits[name] = ([g for g, _ in gen], fns)
 
     def parse_impl(self):
         self.expect("impl")
@@ -249,7 +273,16 @@ class Parser:
         trait, selfty = None, first
         if self.accept("for"):
             trait, selfty = first, self.parse_type()
-        self.skip_where()
+        for name, b in self.skip_where():
+            gen = [(g, gb + b) if g == name else (g, gb) for g, gb in gen]
+        fns = self.parse_impl_items()
+        if trait is not None and trait[0] == "path" and trait[1][-1] in self.traits:
+            tgen, tfns = self.traits[trait[1][-1]]
+            if all(any(g == n for n, _ in gen) for g in tgen):
+                for n, f in tfns.items(): fns.setdefault(n, f)
+        return {"generics": gen, "trait": trait, "selfty": selfty, "fns": fns, "consts": []}
+
+    def parse_impl_items(self, defaults_only=False):
         self.expect("{")
         fns, others = {}, []
         while not self.at("}"):
@@ -267,10 +300,11 @@ class Parser:
                     if self.at("("): self.skip_balanced("(", ")")
                     elif self.at("["): self.skip_balanced("[", "]")
                     else: self.next()
-                if self.at("{"): self.skip_balanced("{", "}")
+                has_body = self.at("{")
+                if has_body: self.skip_balanced("{", "}")
                 else: self.next()
                 fn["end_line"] = self.t[self.i - 1].line
-                fns[name] = fn
+                if has_body or not defaults_only: fns[name] = fn
             elif self.at("type") or self.at("const"):
                 others.append(self.peek().v)
                 while not self.at(";"):
@@ -280,9 +314,9 @@ class Parser:
             else:
                 self.fail(f"syntax: item `{self.peek().v}` inside impl")
         self.expect("}")
-        return {"generics": gen, "trait": trait, "selfty": selfty, "fns": fns, "consts": others}
+        return fns
 
-    def parse_fn_at(self, fn):
+    def parse_fn_at(self, fn, sig_only=False):
         """parse signature and body of the function whose name token precedes index fn['tok']"""
         self.i = next(k for k, tk in enumerate(self.t) if tk is fn["tok"])
         fn["generics"] = self.parse_generics()
@@ -308,6 +342,7 @@ class Parser:
         fn["params"] = params
         fn["ret"] = self.parse_type() if self.accept("->") else ("tuple", [])
         self.skip_where()
+        if sig_only: return fn
         fn["body"] = self.parse_block()
         fn["parsed"] = True
         return fn
@@ -643,6 +678,7 @@ class Parser:
 # ---------------------------------------------------------------------------------------------------------------------
 # 3. types
 # ---------------------------------------------------------------------------------------------------------------------
+UNARY_TYPES = ("Vec", "Iter", "Collect", "Cycle", "Array", "Option", "Result", "HashSet")
 USIZE, ISIZE, INTQ, BOOL, UNIT, STR, NEVER, UNK, ERR = ("usize",), ("isize",), ("int?",), ("bool",), ("unit",), ("str",), ("never",), ("unk",), ("Err",)
 GREEK = ["α", "β", "γ", "δ"]
 LEAN_KEYWORDS = {"at", "from", "end", "then", "fun", "in", "do", "show", "have", "open", "with", "where", "instance", "type", "by",
@@ -663,7 +699,7 @@ def lean_ty(t):
     if k == "bool": return "Bool"
     if k == "unit": return "Unit"
     if k == "var": return t[1]
-    if k in ("Vec", "Iter", "Collect", "Cycle"): return f"List {par(lean_ty(t[1]))}"
+    if k in ("Vec", "Iter", "Collect", "Cycle", "HashSet"): return f"List {par(lean_ty(t[1]))}"
     if k == "Array": return f"Arr {par(lean_ty(t[1]))}"
     if k == "Option": return f"Option {par(lean_ty(t[1]))}"
     if k == "Result": return f"Res {par(lean_ty(t[1]))}"
@@ -675,7 +711,7 @@ def lean_ty(t):
 
 def has_unknown(t):
     if t[0] in ("unk", "never"): return True
-    if t[0] in ("Vec", "Iter", "Collect", "Cycle", "Array", "Option", "Result"): return has_unknown(t[1])
+    if t[0] in UNARY_TYPES: return has_unknown(t[1])
     if t[0] == "Tuple": return any(has_unknown(x) for x in t[1])
     return False
 
@@ -714,13 +750,13 @@ def unify(a, b, what="types"):
     if is_seq(a) and is_seq(b):
         k = "Vec" if "Vec" in (a[0], b[0]) else ("Iter" if "Iter" in (a[0], b[0]) else "Collect")
         return (k, unify(a[1], b[1], what))
-    if a[0] == b[0] and a[0] in ("Array", "Option", "Result", "Cycle"): return (a[0], unify(a[1], b[1], what))
+    if a[0] == b[0] and a[0] in ("Array", "Option", "Result", "Cycle", "HashSet"): return (a[0], unify(a[1], b[1], what))
     if a[0] == b[0] == "Tuple" and len(a[1]) == len(b[1]): return ("Tuple", tuple(unify(x, y, what) for x, y in zip(a[1], b[1])))
     raise Refuse(f"type mismatch in {what}: {show_ty(a)} vs {show_ty(b)}")
 
 
 def show_ty(t):
-    if t[0] in ("Vec", "Iter", "Collect", "Cycle", "Array", "Option", "Result"): return f"{t[0]}<{show_ty(t[1])}>"
+    if t[0] in UNARY_TYPES: return f"{t[0]}<{show_ty(t[1])}>"
     if t[0] == "Tuple": return "(" + ", ".join(show_ty(x) for x in t[1]) + ")"
     if t[0] == "var": return t[2] if len(t) > 2 else t[1]
     return t[0]
@@ -735,7 +771,7 @@ def match_ty(pat, act, sub):
     if act[0] in ("unk", "never"): return
     if (len(pat) == 1 and pat == act) or (is_int(pat) and is_int(act) and INTQ in (pat, act)): return
     if is_seq(pat) and is_seq(act): return match_ty(pat[1], act[1], sub)
-    if pat[0] == act[0] and pat[0] in ("Array", "Option", "Result", "Cycle"): return match_ty(pat[1], act[1], sub)
+    if pat[0] == act[0] and pat[0] in ("Array", "Option", "Result", "Cycle", "HashSet"): return match_ty(pat[1], act[1], sub)
     if pat[0] == act[0] == "Tuple" and len(pat[1]) == len(act[1]):
         for x, y in zip(pat[1], act[1]): match_ty(x, y, sub)
         return
@@ -744,7 +780,7 @@ def match_ty(pat, act, sub):
 
 def subst_ty(t, sub):
     if t[0] == "var": return sub.get(t[1], UNK)
-    if t[0] in ("Vec", "Iter", "Collect", "Cycle", "Array", "Option", "Result"): return (t[0], subst_ty(t[1], sub))
+    if t[0] in UNARY_TYPES: return (t[0], subst_ty(t[1], sub))
     if t[0] == "Tuple": return ("Tuple", tuple(subst_ty(x, sub) for x in t[1]))
     return t
 
@@ -863,7 +899,10 @@ class Crate:
         while t[0] == "ref": t = t[1]
         if t[0] != "path": return "?"
         name = t[1][-1]
-        if any(name == g for g, _ in impl["generics"]): return "T"
+        for g, bounds in impl["generics"]:
+            if name == g:
+                if any(b[0] == "path" and b[1][-1] in ("Iterator", "IntoIterator") for b in bounds): return "Iter"
+                return "T"
         return name
 
     def impl_selfty(self, impl):
@@ -886,12 +925,24 @@ class Crate:
             except Refuse: continue
             if st[0] == "var":
                 if recv_ty[0] in ("var", "usize", "isize", "bool"): blanket.append(im)   # `impl Trait for T`: element-like types only
+            elif st[0] == "Iter":
+                if recv_ty[0] in ("Iter", "Collect"): spec.append(im)                    # `impl Trait for I where I: Iterator`
+            elif recv_ty[0] in ("Iter", "Collect"): continue
             else: spec.append(im)
         return spec or blanket
 
     def sig(self, impl, name):
         key = (id(impl), name)
         if key in self.sigs: return self.sigs[key]
+        tr = impl["trait"][1][-1] if impl["trait"] else None
+        if (impl["file"], tr, self.head_of(impl), name) in EXTERNALS:
+            fc = FnCtx(self, impl, impl["fns"][name])
+            try: sg = fc.signature_only()
+            except Refuse as e:
+                if e.where is None: e.where = (impl["file"], name)
+                raise
+            self.sigs[key] = sg
+            return sg
         if key in self.busy: raise Refuse(f"recursive call of `{name}`")
         self.busy.append(key)
         fn = impl["fns"][name]
@@ -948,6 +999,8 @@ class FnCtx:
         self.tyenv, self.tyvars = {}, []
         self.counter, self.closure_depth = 0, 0
         self.needs = {}
+        self.externs = []          # (name, parameter types, result type) of the external functions this one (or a callee) calls
+        self.effectful_maps = set()
         self.names = set()
         self.add_generics(impl["generics"])
         self.selfty = UNK
@@ -992,13 +1045,24 @@ class FnCtx:
             if len(args) == 2 and not (args[1][0] == "path" and args[1][1][-1] == "ArrayError"): raise Refuse("Result with a foreign error type")
             return ("Result", self.conv_type(args[0]))
         if name == "ArrayError": return ERR
+        if name == "IntoIter" and len(args) == 1: return ("Iter", self.conv_type(args[0]))
+        if name == "HashSet" and len(args) == 1: return ("HashSet", self.conv_type(args[0]))
         raise Refuse(f"type `{'::'.join(segs)}`")
 
     def need(self, ty, what):
         if ty[0] == "var": self.needs.setdefault(ty[1], set()).add(what)
-        elif ty[0] in ("Vec", "Iter", "Collect", "Cycle", "Array", "Option", "Result"): self.need(ty[1], what)
+        elif ty[0] in UNARY_TYPES: self.need(ty[1], what)
         elif ty[0] == "Tuple":
             for x in ty[1]: self.need(x, what)
+
+    def need_ord(self, ty):
+        """`T: Ord` as used by `sort`: the prelude's linear orders (integers, lexicographic tuples, type parameters with the bound)"""
+        if is_int(ty): return
+        if ty[0] == "var": self.need(ty, "Ord"); return
+        if ty[0] == "Tuple":
+            for x in ty[1]: self.need_ord(x)
+            return
+        raise Refuse(f"`sort` on elements of type {show_ty(ty)}")
 
     def fresh(self):
         while True:
@@ -1009,13 +1073,8 @@ class FnCtx:
     @staticmethod
     def lname(n): return n + "_" if n in LEAN_KEYWORDS else n
 
-    # ---- the function
-    def translate(self):
-        fn, impl = self.fn, self.impl
-        parser = self.crate.parsers[impl["file"]]
-        if not fn["parsed"]: parser.parse_fn_at(fn)
-        self.names = {tk.v for tk in parser.t if tk.k == "id"}
-        self.add_generics(fn["generics"])
+    def read_params(self):
+        fn = self.fn
         env, params, self_kind = {}, [], None
         for p in fn["params"]:
             if p[0] == "self":
@@ -1027,6 +1086,33 @@ class FnCtx:
                 if pat[0] != "pid": raise Refuse("pattern in parameter position")
                 env[pat[1]] = (self.lname(pat[1]), ty, 0)
                 params.append((self.lname(pat[1]), ty))
+        return env, params, self_kind
+
+    def signature_only(self):
+        """an EXTERNAL function: only its signature is read; callers receive it as a parameter"""
+        parser = self.crate.parsers[self.impl["file"]]
+        parser.parse_fn_at(self.fn, sig_only=True)
+        self.add_generics(self.fn["generics"])
+        _, params, self_kind = self.read_params()
+        ret = self.conv_type(self.fn["ret"])
+        return {"extern": True, "lean": self.fn["name"], "params": params, "self_kind": self_kind, "ret": ret, "pure": ret[0] != "Result",
+                "needs": {}, "externs": [], "file": self.impl["file"], "fn": self.fn["name"], "impl": self.impl}
+
+    def use_extern(self, name, ptys, ret):
+        for n, p, r in self.externs:
+            if n == name:
+                if (p, r) != (ptys, ret): raise Refuse(f"external `{name}` used at two different types")
+                return
+        self.externs.append((name, ptys, ret))
+
+    # ---- the function
+    def translate(self):
+        fn, impl = self.fn, self.impl
+        parser = self.crate.parsers[impl["file"]]
+        if not fn["parsed"]: parser.parse_fn_at(fn)
+        self.names = {tk.v for tk in parser.t if tk.k == "id"}
+        self.add_generics(fn["generics"])
+        env, params, self_kind = self.read_params()
         self.ret = self.conv_type(fn["ret"])
         head = Crate.head_of(impl)
         lean = f"{head}_{fn['name']}"
@@ -1041,17 +1127,22 @@ class FnCtx:
         used = set()
         def collect(t):
             if t[0] == "var": used.add(t[1])
-            elif t[0] in ("Vec", "Iter", "Collect", "Cycle", "Array", "Option", "Result"): collect(t[1])
+            elif t[0] in UNARY_TYPES: collect(t[1])
             elif t[0] == "Tuple":
                 for x in t[1]: collect(x)
         for _, t in params: collect(t)
         collect(self.ret)
+        for _, pts, r in self.externs:
+            for t in pts: collect(t)
+            collect(r)
         tvs = [v[1] for _, v, _ in self.tyvars if v[1] in used]
         binders = ""
         if tvs: binders += " {" + " ".join(tvs) + " : Type}"
-        insts = {"BEq": "[BEq {0}]", "LE": "[LE {0}] [DecidableLE {0}]", "LT": "[LT {0}] [DecidableLT {0}]"}
+        insts = {"BEq": "[BEq {0}]", "LE": "[LE {0}] [DecidableLE {0}]", "LT": "[LT {0}] [DecidableLT {0}]", "Ord": "[Rs.Ord {0}]"}
         for v in tvs:
             for w in sorted(self.needs.get(v, ())): binders += " " + insts[w].format(v)
+        for n, pts, r in self.externs:
+            binders += f" ({n} : " + " → ".join([par(lean_ty(t)) for t in pts] + [lean_ty(r) if r[0] == "Result" else lean_ty(r)]) + ")"
         for n, t in params: binders += f" ({n} : {lean_ty(t)})"
         src = open(os.path.join(SRC, impl["file"]), encoding="utf-8").read().split("\n")[fn["line"] - 1:fn["end_line"]]
         ind = min((len(l) - len(l.lstrip()) for l in src if l.strip()), default=0)
@@ -1060,7 +1151,8 @@ class FnCtx:
         text = "/- " + header + "\n" + "\n".join(("   " + l[ind:]).rstrip().replace("-/", "- /") for l in src) + " -/\n"
         text += f"def {lean}{binders} : {defty} :=\n" + "\n".join("  " + l for l in term.split("\n")) + "\n"
         return {"lean": lean, "params": params, "self_kind": self_kind, "ret": self.ret, "pure": pure, "text": text,
-                "tyvars": tvs, "needs": self.needs, "file": impl["file"], "fn": fn["name"], "impl": impl, "defty": defty}
+                "tyvars": tvs, "needs": self.needs, "file": impl["file"], "fn": fn["name"], "impl": impl, "defty": defty,
+                "externs": list(self.externs)}
 
 
     # ---- patterns
@@ -1137,6 +1229,16 @@ class FnCtx:
             pat, tyast, init = st[1], st[2], st[3]
             if init is None: raise Refuse("`let` without initialiser")
             ety = self.conv_type(tyast) if tyast is not None else None
+            if init[0] == "mcall" and init[2] == "remove" and len(init[4]) == 1 and init[1][0] == "path" and len(init[1][1]) == 1 \
+                    and init[1][1][0] in env and env[init[1][1][0]][1][0] == "Vec":
+                # `let x = v.remove(i);`: the removed element, then the shorter vector
+                var = init[1][1][0]; self.check_capture(var, env)
+                seq = Seq(self)
+                iv = seq.val(self.tr_expr(init[4][0], env, USIZE))
+                lean, vty = env[var][0], env[var][1]
+                e = seq.wrap(E(f"Rs.index {lean} {par(iv)}", vty[1], False))
+                return self.bind_let(pat, e, env, lambda env2: self.bind_let(
+                    ("pid", var, True), E(f"Rs.vecRemove {env2[var][0]} {par(iv)}", vty, False), env2, rest))
             e = self.tr_expr(init, env, ety)
             if ety is not None: e.ty = unify(e.ty, ety, "let")
             return self.bind_let(pat, e, env, rest)
@@ -1184,6 +1286,12 @@ class FnCtx:
         if k == "if": return self.tr_if_stmt(ast, env, rest, fnlevel)
         if k == "for": return self.tr_for(ast, env, rest)
         if k == "return": return self.tr_return(ast, env, fnlevel)
+        if (k == "mcall" and ast[2] == "for_each" and len(ast[4]) == 1 and ast[4][0][0] == "closure" and len(ast[4][0][1]) == 1
+                and not any(n[0] in ("return", "try") for n in walk(ast[4][0][2]))):
+            # `it.for_each(|p| body)` is `for p in it { body }` (the closure may then mutate locals like a loop body)
+            body = ast[4][0][2]
+            if body[0] != "block": body = ("block", [], body)
+            return self.tr_for(("for", ast[4][0][1][0][0], ast[1], body), env, rest)
         if k == "block":
             m = mutated_vars(ast, env)
             if m:
@@ -1248,6 +1356,8 @@ class FnCtx:
             new = E(f"Rs.vecSwap {lean} {par(seq.val(i))} {par(seq.val(j))}", ty, False)
         elif name == "reverse":
             nargs(0); new = E(f"Rs.reverse {lean}", ty)
+        elif name == "sort":
+            nargs(0); self.need_ord(ty[1]); new = E(f"Rs.sort {lean}", ty)
         elif name == "clear":
             nargs(0); new = E("[]", ty)
         elif name == "truncate":
@@ -1546,6 +1656,10 @@ class FnCtx:
 
     def tr_closure(self, ast, ptys, env):
         """-> (binders, body E)"""
+        if ast[0] == "path" and len(ast[1]) == 2 and len(ptys) == 1:
+            # `Trait::method` / `Type::method` passed as a function: `|x| x.method()`
+            x = self.fresh()
+            ast = ("closure", [(("pid", x, False), None)], ("mcall", ("path", [x], None), ast[1][1], None, []))
         if ast[0] != "closure": raise Refuse("a function item where a closure is expected")
         if len(ast[1]) != len(ptys): raise Refuse("closure with an unexpected number of parameters")
         bs = []
@@ -1582,7 +1696,13 @@ class FnCtx:
                 for w in ws: self.need(sub[v], w)
         ret = subst_ty(sg["ret"], sub)
         pure = sg["pure"] and sg["ret"][0] != "Result"
-        return seq.wrap(E(" ".join([sg["lean"]] + terms), ret, pure))
+        if sg.get("extern"):
+            self.use_extern(sg["lean"], tuple(subst_ty(t, sub) for _, t in sg["params"]), ret)
+        pass_on = []
+        for n, pts, r in sg["externs"]:
+            self.use_extern(n, tuple(subst_ty(t, sub) for t in pts), subst_ty(r, sub))
+            pass_on.append(n)
+        return seq.wrap(E(" ".join([sg["lean"]] + pass_on + terms), ret, pure))
 
     def tr_call(self, ast, env, expected):
         f, args = ast[1], ast[2]
@@ -1617,16 +1737,23 @@ class FnCtx:
                 return self.call_crate(impls, name, [(a, env) for a in args], place_recv=place)
         raise Refuse(f"call of `{'::'.join(segs)}`")
 
+    EARLY_STOP = {"any", "all", "find", "position", "take", "take_while", "skip_while", "zip", "step_by", "first", "get", "chain", "filter"}
+
     def tr_mcall(self, ast, env, expected):
         recv_ast, name, turbofish, args = ast[1], ast[2], ast[3], ast[4]
         r = self.tr_expr(recv_ast, env)
+        if name in self.EARLY_STOP:
+            a = recv_ast
+            while a[0] == "mcall":
+                if id(a) in self.effectful_maps: raise Refuse(f"`{name}` after a `map` whose closure can panic (laziness would be observable)")
+                a = a[1]
         if name in VEC_MUTATORS and r.ty[0] == "Vec": raise Refuse(f"`Vec::{name}` in expression position")
-        impls = self.crate.candidates(r.ty, name) if r.ty[0] not in ("unk", "never", "Iter", "Cycle", "Collect") else []
+        impls = self.crate.candidates(r.ty, name) if r.ty[0] not in ("unk", "never", "Cycle") else []
         if impls and not (r.ty[0] != "Array" and name in ERASED):
             return self.call_crate(impls, name, [r] + [(a, env) for a in args], place_recv=place_root(recv_ast) is not None)
-        return self.std_mcall(r, name, turbofish, args, env, expected)
+        return self.std_mcall(r, name, turbofish, args, env, expected, ast)
 
-    def std_mcall(self, r, name, turbofish, args, env, expected):
+    def std_mcall(self, r, name, turbofish, args, env, expected, ast=None):
         k = r.ty[0]
         def nargs(n):
             if len(args) != n: raise Refuse(f"`{name}` with {len(args)} arguments")
@@ -1687,6 +1814,9 @@ class FnCtx:
                     impls = [im for im in self.crate.impls if im["trait"] and im["trait"][1][-1] == "FromIterator" and "from_iter" in im["fns"]]
                     return seq.wrap(self.call_crate(impls, "from_iter", [E(v, ("Iter", item))]))
                 if target is not None and target[0] == "Vec": return seq.wrap(E(v, ("Vec", unify(item, target[1], "collect"))))
+                if target is not None and target[0] == "HashSet":
+                    self.need(item, "BEq")
+                    return seq.wrap(E(f"Rs.toHashSet {pv}", ("HashSet", unify(item, target[1], "collect"))))
                 if target is not None and target[0] not in ("unk",): raise Refuse(f"`collect` into {show_ty(target)}")
                 return seq.wrap(E(v, ("Collect", item)))
             if name in ("any", "all", "filter", "skip_while", "take_while", "find", "position", "map", "for_each"):
@@ -1694,7 +1824,11 @@ class FnCtx:
                 bs, b = closure(0, [item])
                 if name == "for_each": raise Refuse("`for_each`")
                 if name == "map":
-                    if not b.pure: raise Refuse("`map` with a closure that can panic")
+                    if not b.pure:
+                        # every element is produced before the consumer sees the first one; a consumer that may stop early is refused below
+                        if b.ty[0] == "Result": raise Refuse("`map` to Result values with a closure that can panic")
+                        self.effectful_maps.add(id(ast))
+                        return seq.wrap(E(f"Rs.mapM {pv} (fun {bs} =>\n{b.term})", ("Iter", b.ty), False))
                     return seq.wrap(E(f"Rs.map {pv} (fun {bs} =>\n{b.term})", ("Iter", b.ty)))
                 if b.ty != BOOL: raise Refuse(f"`{name}` with a closure that does not return bool")
                 if name in ("any", "all"):
@@ -1717,6 +1851,9 @@ class FnCtx:
                 if b.pure: return seq.wrap(E(f"Rs.fold {pv} {iv} (fun {bs} =>\n{b.term})", acc))
                 return seq.wrap(E(f"Rs.foldM {pv} {iv} (fun {bs} =>\n{b.term})", acc, False))
             raise Refuse(f"`{name}` on {show_ty(r.ty)}")
+        if k == "HashSet":
+            if name == "len": nargs(0); return seq.wrap(E(f"{par(v)}.length", USIZE))
+            raise Refuse(f"`HashSet::{name}`")
         if k == "Cycle":
             if name == "take": nargs(1); return seq.wrap(E(f"Rs.cycleTake {par(v)} {aval(0, USIZE)}", ("Iter", r.ty[1])))
             raise Refuse(f"`{name}` on an endless iterator")
@@ -1735,6 +1872,8 @@ class FnCtx:
             if name == "map_or":
                 nargs(2); d = arg(0)
                 bs, b = closure(1, [r.ty[1]])
+                if d.pure and not b.pure and b.ty[0] != "Result":
+                    return seq.wrap(E(f"Rs.mapOrM {pv} {par(d.term)} (fun {bs} =>\n{b.term})", unify(d.ty, b.ty, "map_or"), False))
                 if not (d.pure and b.pure): raise Refuse("`map_or` with effects")
                 return seq.wrap(E(f"Rs.mapOr {pv} {par(d.term)} (fun {bs} =>\n{b.term})", unify(d.ty, b.ty, "map_or")))
             raise Refuse(f"`Option::{name}`")
@@ -1743,7 +1882,7 @@ class FnCtx:
             if name == "to_isize": nargs(0); return seq.wrap(E(f"Rs.toIsize {pv}", ISIZE))
             if name == "to_usize": nargs(0); return seq.wrap(E(v, USIZE))
             if name == "saturating_sub": nargs(1); return seq.wrap(E(f"Rs.saturatingSub {pv} {aval(0, USIZE)}", USIZE))
-            if name in ("min", "max"): nargs(1); return seq.wrap(E(f"({name} {pv} {aval(0, USIZE)})", USIZE))
+            if name in ("min", "max"): nargs(1); return seq.wrap(E(f"Rs.u{name} {pv} {aval(0, USIZE)}", USIZE))
             raise Refuse(f"`usize::{name}`")
         if k == "isize":
             pv = par(v)
